@@ -1,6 +1,6 @@
 (* C15 - scores, errors and individuals are ordered and aggregated consistently. *)
-From Coq Require Import List ZArith Bool.
-From UEC Require Import Ec.Order.
+From Coq Require Import List ZArith Bool Floats.
+From UEC Require Import Base.F64 Ec.Order.
 Import ListNotations.
 Local Open Scope Z_scope.
 
@@ -70,6 +70,16 @@ Theorem C15_min_max : forall a b,
      (omax c a b = a \/ omax c a b = b) /\ (omin c a b = a \/ omin c a b = b)).
 Proof. exact (fun a b => conj (omax_omin_score a b) (conj (omax_omin_error a b) (fun c H => omax_bound c a b H))). Qed.
 Print Assumptions C15_min_max.
+
+(* results need not be integers: for floating-point results the total is the left-to-right sum, one addition per
+   case in the order given, and no regrouping of the cases (block-wise or pairwise summation) is equivalent *)
+Theorem C15_float_total_in_order : forall z l x,
+  ftotal z [] = z /\ ftotal z (l ++ [x]) = PrimFloat.add (ftotal z l) x /\
+  (let big := i2f 10000000000000000 in
+   ftotal (fzero true) [big; PrimFloat.one; PrimFloat.one]
+   <> PrimFloat.add (ftotal (fzero true) [big]) (ftotal (fzero true) [PrimFloat.one; PrimFloat.one])).
+Proof. exact (fun z l x => conj eq_refl (conj (ftotal_snoc z l x) ftotal_grouping_matters)). Qed.
+Print Assumptions C15_float_total_in_order.
 
 Example C15_nonvacuous :
   score_cmp 3 5 = Lt /\ error_cmp 3 5 = Gt /\ total (results_from [5; -8; 0; 6]) = 3 /\
